@@ -38,6 +38,10 @@ def impl_env() -> dict:
     env["PYTHONHASHSEED"] = "0"
     env[GUARD] = "1"
     env["PYTHONDONTWRITEBYTECODE"] = "1"
+    # never read a cached .pyc of the repository (an edit made within the same second and of
+    # the same size as the cached compilation would otherwise go unnoticed): always compile
+    # the working tree's source
+    env["PYTHONPYCACHEPREFIX"] = "/nonexistent/verif-no-pycache"
     env.pop("PYTHONSTARTUP", None)
     return env
 
@@ -217,8 +221,17 @@ def check_props(pid: str, obl: Obligations, allowed_axioms=(), extra_targets=())
     info = {"theorems": theorems, "assumptions": {}, "build_output_tail": ""}
     with build_lock():
         errs = regenerate()
+        # a translator that refuses the source breaks only the properties whose cone contains
+        # the file it generates (tx_<x>.py -> gen/<X>.v)
+        gen_of = {"tx_consts.py": "gen/Consts.v", "tx_regex.py": "gen/Regexes.v",
+                  "tx_skel.py": "gen/Skeletons.v", "tx_pure.py": "gen/Pure.v"}
+        pre_cone = set(cone(rel))
+        for t in extra_targets:
+            pre_cone |= set(cone(t[:-1]))
         for e in errs:
-            obl.add("translator", False, e)
+            g = gen_of.get(e.split(":", 1)[0])
+            if g is None or g in pre_cone:
+                obl.add("translator", False, e)
         vo = COQ / f"props/{pid}.vo"
         if vo.exists():
             vo.unlink()
